@@ -2180,13 +2180,20 @@ coap_read_session(coap_context_t *ctx, coap_session_t *session, coap_tick_t now)
           p += n;
           bytes_read -= n;
           if (n == len) {
-            if (coap_pdu_parse_header(session->partial_pdu, session->proto)
-                && coap_pdu_parse_opt(session->partial_pdu)) {
-              coap_dispatch(ctx, session, session->partial_pdu);
-            }
-            coap_delete_pdu(session->partial_pdu);
+            /*
+             * Detach the PDU from the session first: a failing write of the
+             * response disconnects the session from inside coap_dispatch()
+             * and coap_session_disconnected_lkd() deletes session->partial_pdu.
+             */
+            coap_pdu_t *pdu = session->partial_pdu;
+
             session->partial_pdu = NULL;
             session->partial_read = 0;
+            if (coap_pdu_parse_header(pdu, session->proto)
+                && coap_pdu_parse_opt(pdu)) {
+              coap_dispatch(ctx, session, pdu);
+            }
+            coap_delete_pdu(pdu);
           } else {
             session->partial_read += n;
           }
@@ -2227,12 +2234,14 @@ coap_read_session(coap_context_t *ctx, coap_session_t *session, coap_tick_t now)
             memcpy(session->partial_pdu->token - hdr_size, session->read_header, hdr_size + tok_ext_bytes);
             session->partial_read = hdr_size + tok_ext_bytes;
             if (size == 0) {
-              if (coap_pdu_parse_header(session->partial_pdu, session->proto)) {
-                coap_dispatch(ctx, session, session->partial_pdu);
-              }
-              coap_delete_pdu(session->partial_pdu);
+              coap_pdu_t *pdu = session->partial_pdu;
+
               session->partial_pdu = NULL;
               session->partial_read = 0;
+              if (coap_pdu_parse_header(pdu, session->proto)) {
+                coap_dispatch(ctx, session, pdu);
+              }
+              coap_delete_pdu(pdu);
             }
           } else {
             session->partial_read += n;
